@@ -851,6 +851,9 @@ bool TimeZoneInfo::Load(const std::string& name) {
   // Find and use a ZoneInfoSource to load the named zone.
   auto zip = cctz_extension::zone_info_source_factory(
       name, [](const std::string& n) -> std::unique_ptr<ZoneInfoSource> {
+        // A name with an embedded NUL does not name a file (and the C
+        // library would silently use only what precedes the NUL).
+        if (n.find('\0') != std::string::npos) return nullptr;
         if (auto z = FileZoneInfoSource::Open(n)) return z;
         if (auto z = AndroidZoneInfoSource::Open(n)) return z;
         if (auto z = FuchsiaZoneInfoSource::Open(n)) return z;
